@@ -287,6 +287,7 @@ def run(ctx):
                         nt = id_kind != "valid" or flavour != "as-is" or (v is not None and v != ver)
                         ctx.note(case, nt, ["entry:" + entry, "version:%s" % v, "id:" + id_kind, "flavour:" + flavour, "docver:" + ver],
                                  fp=core.fingerprint([entry, v, ver, doc["type"], flavour, id_kind]))
+                        ctx.keep(case, (entry, v, ver, id_kind != "valid", flavour), per_group=1, limit=4000)
                         ctx.handle(case, fails)
         case = {"produced": True, "ver": ver, "doc": doc}
         fails = check_produced(case)
@@ -301,6 +302,11 @@ def run(ctx):
             ver, t = ver_t
             return ver, draw(G.valid_object(ver, type_=t, opts=dict(OPTS))), draw(st.integers(0, 1000))
         core.run_given(ctx, strat(), body, per_type, label="c14-%s-%s" % ver_t, rounds=2)
+
+    # no answer may depend on what was parsed or read before under another version / strictness: kept cases in fresh processes, in
+    # four orders ("2.0 first" / "2.1 first" by the version NAMED in the call)
+    bat = ctx.battery()
+    core.order_probe(ctx, cases=bat[::max(1, len(bat) // 120)][:120], version_of=lambda c: c.get("version") or c.get("ver"))
 
     # produced-content clause over richer objects (all types incl. observables with extensions)
     def body2(args):
